@@ -1,10 +1,17 @@
 /-
   C15 — literals and value representations round-trip losslessly.
-  Part 1 (this file): integer narrowing succeeds exactly when the value is representable.
-  `FP.Gen.Narrow` is translated from internal/narrow/narrow.go on every run.
+  Part 1: integer narrowing succeeds exactly when the value is representable (`FP.Gen.Narrow` is
+  translated from internal/narrow/narrow.go on every run).
+  Part 2: string literals — the regenerated escape table is the specification's, every escape
+  decodes to the character it denotes, every other character is left intact, and decoding undoes
+  the escaping a writer of literals performs, for all strings.
+  Part 3: the canonical string forms of Boolean, Integer, Date, DateTime and Time values re-parse
+  to the same value (the theorems of FP.Props.C13 over the text model, restated here).
 -/
 import FP.Gen.Narrow
 import FP.Ref.IntKinds
+import FP.Model.Literal
+import FP.Props.C13
 namespace FP.Props.C15
 open FP FP.Go FP.Ref FP.Gen.Narrow
 
@@ -39,5 +46,116 @@ theorem narrow_never_panics (s : Bool) (to : String) (v : Int) : (toIntegerOk s 
 example : toIntegerOk true "uint8" 255 = some true := by decide
 example : toIntegerOk true "uint8" 256 = some false := by decide
 example : toIntegerOk false "int64" 9223372036854775808 = some false := by decide
+
+/-! ### Part 2: string literals -/
+section Literals
+open FP.Model.Literal FP.Gen.Escapes
+
+/-- the escape table of the source is the FHIRPath specification's: \' \" \` \r \t \n \f \\ \/ -/
+theorem escape_table_is_spec :
+    escapeTable = [(39, 39), (34, 34), (96, 96), (114, 13), (116, 9), (110, 10), (102, 12), (92, 92), (47, 47)] := by
+  decide +kernel
+
+theorem decodeAux_nil (f : Nat) : decodeAux f [] = [] := by cases f <;> rfl
+
+theorem decodeAux_cons_ne (f : Nat) (c : Char) (r : List Char) (h : c ≠ '\\') :
+    decodeAux (f + 1) (c :: r) = c :: decodeAux f r := by
+  rw [decodeAux.eq_5]
+  · intro h1 _; exact h h1
+  · intro c' r' h1 _; exact h h1
+
+theorem decodeAux_esc (f : Nat) (c d : Char) (r : List Char) (h : escapeOf c = some d) :
+    decodeAux (f + 1) ('\\' :: c :: r) = d :: decodeAux f r := by
+  simp [decodeAux, h]
+
+/-- characters other than the backslash are left intact -/
+theorem no_backslash_unchanged (s : List Char) (h : ∀ c ∈ s, c ≠ '\\') (f : Nat) (hf : s.length ≤ f) :
+    decodeAux f s = s := by
+  induction s generalizing f with
+  | nil => exact decodeAux_nil f
+  | cons c r ih =>
+    cases f with
+    | zero => simp at hf
+    | succ f =>
+      rw [decodeAux_cons_ne f c r (h c (by simp)), ih (fun x hx => h x (List.mem_cons_of_mem _ hx)) f (by simp at hf; omega)]
+
+/-- every escape of the specification decodes to the character it denotes -/
+theorem escapes_decode :
+    escapeOf '\'' = some '\'' ∧ escapeOf '"' = some '"' ∧ escapeOf '`' = some '`' ∧ escapeOf 'r' = some '\r' ∧
+    escapeOf 't' = some '\t' ∧ escapeOf 'n' = some '\n' ∧ escapeOf 'f' = some (Char.ofNat 12) ∧
+    escapeOf '\\' = some '\\' ∧ escapeOf '/' = some '/' := by decide +kernel
+
+/-- \uXXXX decodes to the code point -/
+theorem unicode_decodes (r : List Char) (f : Nat) :
+    decodeAux (f + 1) ('\\' :: 'u' :: '0' :: '0' :: '4' :: '1' :: r) = 'A' :: decodeAux f r := by
+  have h1 : escapeOf 'u' = none := by decide +kernel
+  have h2 : unicode? '0' '0' '4' '1' = some 'A' := by decide +kernel
+  simp [decodeAux, h1, takeUnicode, h2]
+
+/-- DECODE ∘ ENCODE = id: for every string, the literal body a writer produces by escaping
+    backslash and quote decodes back to the string -/
+theorem decode_encode (s : List Char) (f : Nat) (hf : (encode s).length ≤ f) : decodeAux f (encode s) = s := by
+  induction s generalizing f with
+  | nil => exact decodeAux_nil f
+  | cons c r ih =>
+    unfold encode at hf ⊢
+    by_cases hc : (c == '\\' || c == '\'') = true
+    · simp only [hc, if_true] at hf ⊢
+      cases f with
+      | zero => simp at hf
+      | succ f =>
+        have he : escapeOf c = some c := by
+          rcases Bool.or_eq_true _ _ |>.mp hc with h | h
+          · have : c = '\\' := by simpa using h
+            subst this; exact escapes_decode.2.2.2.2.2.2.2.1
+          · have : c = '\'' := by simpa using h
+            subst this; exact escapes_decode.1
+        rw [decodeAux_esc f c c (encode r) he]
+        -- one step consumed two characters: the remaining fuel is still enough
+        have hlen : (encode r).length ≤ f := by simp at hf; omega
+        rw [ih f hlen]
+    · have hcf : (c == '\\' || c == '\'') = false := by simpa using hc
+      simp only [hcf, Bool.false_eq_true, if_false] at hf ⊢
+      cases f with
+      | zero => simp at hf
+      | succ f =>
+        have hne : c ≠ '\\' := by intro e; subst e; simp at hcf
+        rw [decodeAux_cons_ne f c (encode r) hne, ih f (by simp at hf; omega)]
+
+/-- the whole literal: quotes dropped, body decoded -/
+theorem literal_roundtrip (s : List Char) : parseString ('\'' :: encode s ++ ['\'']) = s := by
+  have ht : trimQuotes ('\'' :: encode s ++ ['\'']) = encode s := by
+    simp [trimQuotes, List.reverse_append]
+  unfold parseString
+  rw [ht]
+  exact decode_encode s _ (Nat.le_refl _)
+
+end Literals
+
+/-! ### Part 3: canonical string forms re-parse to the same value (restated from C13) -/
+
+open FP.Model.Text FP.Model.Conv FP.Lemmas.Text FP.Gen.Layouts in
+theorem boolean_text_roundtrip (b : Bool) :
+    toBooleanV (.str (if b then "true".toList else "false".toList)) = .ok (some (.bool b)) :=
+  (FP.Props.C13.boolean_roundtrip b).2
+
+open FP.Model.Text FP.Model.Conv FP.Lemmas.Text FP.Gen.Layouts in
+theorem integer_text_roundtrip (i : Int) (h : -2147483648 ≤ i ∧ i < 2147483648) :
+    toIntegerV (.str (renderInt i)) = .ok (some (.int i)) :=
+  (FP.Props.C13.integer_roundtrip i h).2
+
+open FP.Model.Text FP.Model.Conv FP.Lemmas.Text FP.Gen.Layouts in
+/-- a Date / DateTime / Time value with any layout of the parser tables, rendered with its layout
+    and parsed again, is the same value: same layout (precision), same reading, same offset -/
+theorem temporal_text_roundtrip (w : Wall) (hb : Bounded w) (hn : w.nanos % 1000000 = 0) :
+    (∀ (i : Nat) (l : String), parseDateLayouts[i]? = some l → Expressible (goLayout l.toList) w →
+      toDateV (.str (formatT l w)) = .ok (some (.date l w))) ∧
+    (∀ (i : Nat) (l : String), parseDateTimeLayouts[i]? = some l → Expressible (goLayout l.toList) w →
+      toDateTimeV (.str (formatT l w)) = .ok (some (.dateTime l w))) ∧
+    (∀ (i : Nat) (l : String), parseTimeLayouts[i]? = some l → Expressible (goLayout l.toList) w →
+      toTimeV (.str (formatT l w)) = .ok (some (.time l w))) :=
+  ⟨fun i l hl hx => (FP.Props.C13.date_roundtrip i l hl w hb hx hn).2,
+   fun i l hl hx => (FP.Props.C13.dateTime_roundtrip i l hl w hb hx hn).2,
+   fun i l hl hx => (FP.Props.C13.time_roundtrip i l hl w hb hx hn).2⟩
 
 end FP.Props.C15
